@@ -16,75 +16,46 @@ from rules import common
 LEVEL = 'other'
 
 
-def loop_trip_count(f, call_short, recv_canon):
-    """number of calls `recv.call_short()` made by the cross-block branch as a symbolic term: pre-loop calls + (bound - init)
-    for a canonical counted loop `for (i = c; i != n; ++i)` / `i < n`.  returns (canonical string, description) or (None, why)"""
-    pre = 0
-    loops = []
-    for bid, b in f.blocks.items():
-        t = b.get('term')
-        if t and t.get('cls') in ('ForStmt', 'WhileStmt') and isinstance(t.get('cond'), dict):
-            loops.append((bid, b))
+def loop_trip_count(f, call_short, recv_canon, db=None, roles=None):
+    """number of calls `recv.call_short()` made by the cross-block branch as a linear form over the values at loop entry:
+    calls before the loop + executions of the call inside a counted loop (engine/loops.py: for / while / do-while, counting up or
+    down).  returns (linear form, description), ('VARIANT', why), ('WRAP', why) or (None, why)"""
+    from engine import loops, linear
+    roles = roles if roles is not None else {0: 'm'}
     calls = [(e, t) for e, t in flow.call_events(f) if t.get('short') == call_short and sym.canon(t.get('recv') or {}) == recv_canon]
     if not calls:
         return None, 'no %s.%s() call' % (recv_canon, call_short)
-    if len(loops) != 1:
-        return None, 'expected exactly one loop, found %d' % len(loops)
-    lb_id, lb = loops[0]
-    cond = sym.strip_casts(lb['term']['cond'])
-    if cond.get('k') != 'bin' or cond['op'] not in ('!=', '<'):
-        return None, 'loop condition %s is not a counted-loop condition' % sym.canon(cond)
-    ctr, bound = sym.strip_casts(cond['l']), sym.strip_casts(cond['r'])
-    if ctr.get('k') != 'local':
-        return None, 'loop counter not a local'
-    init = None
-    incs = 0
-    for e in f.events():
-        if e['ev'] == 'decl':
-            for v in e['vars']:
-                if v['did'] == ctr['did']:
-                    init = v.get('init')
-        if e['ev'] == 'incdec' and sym.strip_casts(e['lhs']).get('did') == ctr['did'] and e['op'] == '++':
-            incs += 1
-    if init is None or incs != 1:
-        return None, 'loop counter is not initialised once and incremented once'
-    # body blocks: successors of the loop head's true edge up to the back edge
-    body = set()
-    st = [lb['succ'][0]]
-    while st:
-        b = st.pop()
-        if b is None or b in body or b == lb_id:
-            continue
-        body.add(b)
-        st.extend(f.blocks[b]['succ'])
-    in_body = [e for e, t in calls if e.block in body]
-    before = [e for e, t in calls if e.block not in body and f.ev_dominates(e, _first_event(f, lb_id, calls)) is not None and e.block != lb_id
-              and lb_id in _reach(f, e.block)]
-    if len(in_body) != 1:
-        return None, 'loop body makes %d calls' % len(in_body)
+    lps = [lp for lp in loops.find_loops(f) if any(e.block in lp.body or e.block == lp.head for e, t in calls)]
+    if len(lps) != 1:
+        return None, 'expected the calls in exactly one loop, found %d' % len(lps)
+    lp = lps[0]
+    in_body = [e for e, t in calls if e.block in lp.body or e.block == lp.head]
+    before = [e for e, t in calls if e.block not in lp.body and e.block != lp.head and lp.head in _reach(f, e.block)]
+    if len(in_body) != 1 or not loops.once_per_cycle(lp, in_body[0].block):
+        return None, 'the loop does not make exactly one call per cycle'
+    c = loops.counted(lp)
+    if isinstance(c, str):
+        return None, c
     # the bound must not change while the loop runs: a bound that reads the object the body's call modifies is re-evaluated
     # after every call and moves with it
-    if bound.get('k') != 'local':
-        reads = {sym.canon(st.get('recv') or {}) for st in subterms(bound) if isinstance(st, dict) and st.get('k') == 'call'} | \
-                {sym.canon(st) for st in subterms(bound) if isinstance(st, dict) and st.get('k') == 'member'}
-        if any(r == recv_canon or r.startswith(recv_canon + '.') for r in reads):
-            return 'VARIANT', 'the loop bound `%s` reads %s, which every %s() call in the body changes' % (sym.canon(bound, {0: 'm'})[:80], recv_canon, call_short)
-    # bound local -> its definition
-    bound_c = sym.canon(bound, {0: 'm'})
-    if bound.get('k') == 'local':
-        for e in f.events():
-            if e['ev'] == 'decl':
-                for v in e['vars']:
-                    if v['did'] == bound['did'] and v.get('init') is not None:
-                        bound_c = sym.canon(v['init'], {0: 'm'})
-    init_c = sym.canon(init)
-    npre = len(before)
-    if not re.match(r'^\d+$', init_c):
-        return None, 'loop start %s is not a literal' % init_c
-    k = npre - int(init_c)
-    if k == 0:
-        return bound_c, '%d call(s) before the loop + loop from %s to the bound' % (npre, init_c)
-    return '(%s %+d)' % (bound_c, k), 'calls before the loop and loop start do not cancel'
+    bound = sym.strip_casts(c.bound)
+    reads = {sym.canon(st.get('recv') or {}) for st in subterms(bound) if isinstance(st, dict) and st.get('k') == 'call'} | \
+            {sym.canon(st) for st in subterms(bound) if isinstance(st, dict) and st.get('k') == 'member'}
+    if any(r == recv_canon or r.startswith(recv_canon + '.') for r in reads):
+        return 'VARIANT', 'the loop bound `%s` reads %s, which every %s() call in the body changes' % (sym.canon(bound, roles)[:80], recv_canon, call_short)
+    totals = []
+    for vals, pre in loops.entry_state(f, lp, db=db, roles=roles):
+        I = linear.lin(loops.subst_vals(f, c.ctr_term, vals, roles), roles)
+        B = linear.lin(loops.subst_vals(f, c.bound, vals, roles), roles)
+        T, needs = loops.evaluations(c, I, B)
+        if not loops.established(needs, pre, roles, nonneg=(I, B)):
+            return 'WRAP', 'the loop runs its count only when [%s] >= 0, which no condition on the way to the loop establishes' % linear.fmt(needs)
+        tot = linear._add(loops.executions(c, in_body[0].block, T), {'': len(before)} if before else {}, 1)
+        if tot not in totals:
+            totals.append(tot)
+    if len(totals) != 1:
+        return None, 'the paths into the loop do not agree on the number of calls (%s)' % [linear.fmt(t) for t in totals]
+    return totals[0], '%d call(s) before the loop + %s' % (len(before), c.why)
 
 
 def _reach(f, b0):
@@ -123,18 +94,28 @@ def check_stack(run, db):
                           site={'function': 'memory_stack::top', 'role': 'marker contents'})
             continue
         idx = m.group(1)
-        cnt, how = loop_trip_count(unw, 'deallocate_block', 'this.arena_')
+        from engine import linear
+        idx_terms = [s.ret_term for s in fwd.summarize(top, roles={}) if s.end == 'return' and s.ret_term is not None]
+        idx_t = sym.strip_casts(idx_terms[0]) if idx_terms else None
+        while isinstance(idx_t, dict) and idx_t.get('k') != 'construct' and isinstance(idx_t.get('e'), dict):
+            idx_t = sym.strip_casts(idx_t['e'])
+        if not (isinstance(idx_t, dict) and idx_t.get('k') == 'construct' and idx_t.get('args')):
+            run.broke('top() of %s: the marker construction was not found' % strip_ns(cls))
+            continue
+        want = linear.sub(linear.lin(idx_t['args'][0], {}), {'$m.index': 1})
+        cnt, how = loop_trip_count(unw, 'deallocate_block', 'this.arena_', db=db)
         site = {'function': 'memory_stack::unwind', 'role': 'blocks dropped == index difference'}
-        want = {'(%s - $m.index)' % idx}
         if cnt == 'VARIANT':
             run.violation('R-TERM.index', inst, unw.loc, how + ': the bound shrinks as blocks are dropped, so fewer than (current index - m.index) blocks are released', site=site)
+        elif cnt == 'WRAP':
+            run.violation('R-TERM.index', inst, unw.loc, how + ': unwinding within one block would release every block', site=site)
         elif cnt is None:
             run.broke('unwind of %s: %s' % (strip_ns(cls), how))
-        elif cnt in want:
-            run.ok('R-TERM.index', inst, unw.loc, 'unwind returns %s blocks; top() stores index %s' % (cnt, idx))
+        elif cnt == want:
+            run.ok('R-TERM.index', inst, unw.loc, 'unwind returns [%s] blocks (%s); top() stores index %s' % (linear.fmt(cnt), how, idx))
         else:
             run.violation('R-TERM.index', inst, unw.loc,
-                          'unwind returns %s blocks to the arena but markers store the index %s: the number of dropped blocks is not (current index - m.index)' % (cnt, idx), site=site)
+                          'unwind returns [%s] blocks to the arena but markers store the index %s: the number of dropped blocks is not (current index - m.index)' % (linear.fmt(cnt), idx), site=site)
         # ---- both branches leave stack_ at m.top, after the checks
         S = [s for s in fwd.summarize(unw, db=db, roles={0: 'm'}, no_forward=True) if s.end == 'return']
         probs = []
@@ -318,12 +299,13 @@ def check_raii(run, db):
                 if not w or not flow.must_pass_through(f, lambda e: e in w):
                     probs.append('release() does not null stack_')
             else:
-                for s in fwd.summarize(f, roles={}, no_forward=True):
+                for s in fwd.summarize(f, db=db, roles={}, no_forward=True, inline_pred=lambda a, c, t: c.cls == a.cls and c.key != a.key and len(c.blocks) <= 12):
                     if s.end != 'return':
                         continue
                     uw = [c for c in s.calls if c[0].startswith('this.stack_.unwind(')]
-                    armed = ('this.stack_', True) in s.conds
-                    disarmed = ('this.stack_', False) in s.conds
+                    nn = common.nonnull_on_path(s.conds, 'this.stack_')
+                    armed = nn is True
+                    disarmed = nn is False
                     if armed and (len(uw) != 1 or 'this.marker_' not in uw[0][0]):
                         probs.append('armed path unwinds %d time(s) / not to the stored marker' % len(uw))
                     if disarmed and uw:
